@@ -446,6 +446,14 @@ impl<'a> Rw<'a> {
                     Some(format!("{{ let mut __v = Vec::new(); {} __v }}", pushes.join(" ")))
                 }
             }
+            "cartesian" if !stmt_pos => {
+                // R36: `cartesian!(A, B)` (external crate `cartesian`: the nested-loop product of two iterators, A-major) -> `cartesian_(A, B)`,
+                //   the overlay's model of that iterator (ASSUMED contract)
+                let items = self.render_tokens_as_exprs(&mac.tokens)?;
+                if items.len() != 2 { self.err("unsupported-construct", "cartesian! with other than two factors".into()); return None; }
+                self.count("R36");
+                Some(format!("cartesian_({}, {})", items[0], items[1]))
+            }
             "panic" | "unreachable" | "todo" | "unimplemented" => {
                 self.count("R2");
                 Some(if stmt_pos { "rt_never()".to_string() } else { "rt_panic()".to_string() })
@@ -819,7 +827,7 @@ impl<'a, 'b, 'ast> Visit<'ast> for Collector<'a, 'b> {
                 let sp = e.span().byte_range();
                 self.edits.push((sp.start, sp.end, format!("{}neg_({x})", rw.fam(&[&u.expr]))));
             }
-            Expr::MethodCall(c) if c.method == "collect" && c.args.is_empty() && !(rw.for_iter && matches!(&*c.receiver, Expr::MethodCall(m) if m.method == "filter_map" || (m.method == "filter" && matches!(&*m.receiver, Expr::MethodCall(mm) if mm.method == "into_iter")))) => {
+            Expr::MethodCall(c) if c.method == "collect" && c.args.is_empty() && !(rw.for_iter && matches!(&*c.receiver, Expr::MethodCall(m) if m.method == "filter_map" || (m.method == "filter" && matches!(&*m.receiver, Expr::MethodCall(mm) if mm.method == "into_iter")) || (m.method == "map" && matches!(&*m.receiver, Expr::MethodCall(mm) if mm.method == "into_par_iter")))) => {
                 // R8: (a..b).collect()
                 let mut inner = &*c.receiver;
                 while let Expr::Paren(p) = inner {
@@ -1043,6 +1051,43 @@ impl<'a, 'b, 'ast> Visit<'ast> for Collector<'a, 'b> {
                     let after = rw.section(&format!("loop {idx} after")).map(|t| format!("proof {{ //@p\n{}\n}} //@p\n", mark(t))).unwrap_or_default();
                     let text = format!("({{ let mut __src{idx} = {v}; let mut __out{idx} = {newv};\nloop\n{inv}\n{{ {top}match vec_take_first_(&mut __src{idx}) {{ Some(__item{idx}) => {{ let __keep{idx} = {{ {binds} {body} }}; if __keep{idx} {{ __out{idx}.push(__item{idx}); }}\n{end} }} None => {{ break; }} }} }}\n{after} __out{idx} }})");
                     rw.count("R34");
+                    let sp = e.span().byte_range();
+                    self.edits.push((sp.start, sp.end, text));
+                } }
+            }
+            Expr::MethodCall(c) if rw.for_iter && c.method == "filter" && c.args.len() == 1 && matches!(&c.args[0], Expr::Closure(cl) if cl.inputs.len() == 1 && matches!(&cl.inputs[0], syn::Pat::Reference(pr) if matches!(&*pr.pat, syn::Pat::Ident(_))) && matches!(&*cl.body, Expr::Binary(b) if matches!(b.op, syn::BinOp::Ne(_)) && matches!(&*b.left, Expr::Path(_)) && matches!(&*b.right, Expr::Path(_)))) => {
+                // R37 (option for_iter=1): `E.filter(|&a| a != b)` (exactly this shape: the closure's parameter against a variable) ->
+                //   `filter_ne_(E, b)`: the elements of E different from b, in order
+                if let Expr::Closure(cl) = &c.args[0] { if let (syn::Pat::Reference(pr), Expr::Binary(b)) = (&cl.inputs[0], &*cl.body) { if let (syn::Pat::Ident(pi), Expr::Path(l), Expr::Path(r)) = (&*pr.pat, &*b.left, &*b.right) {
+                    if l.path.is_ident(&pi.ident) && !r.path.is_ident(&pi.ident) {
+                        let text = format!("filter_ne_({}, {})", rw.render_expr(&c.receiver), rw.src[r.span().byte_range()].trim());
+                        rw.count("R37");
+                        let sp = e.span().byte_range();
+                        self.edits.push((sp.start, sp.end, text));
+                    } else { visit::visit_expr(self, e); }
+                } else { visit::visit_expr(self, e); } } else { visit::visit_expr(self, e); } }
+            }
+            Expr::MethodCall(c) if rw.for_iter && c.method == "collect" && c.args.is_empty() && matches!(&*c.receiver, Expr::MethodCall(mp) if mp.method == "map" && mp.args.len() == 1 && matches!(&mp.args[0], Expr::Closure(cl) if cl.inputs.len() == 1) && matches!(&*mp.receiver, Expr::MethodCall(m) if m.method == "into_par_iter" && m.args.is_empty() && matches!(&*m.receiver, Expr::Path(_)))) => {
+                // R35 (option for_iter=1): `V.into_par_iter().map(|P| B).collect::<Vec<_>>()` on a Vec held in a variable, B not mutating anything ->
+                //   the sequential map (rayon's indexed collect keeps the order of V; the closure is `Fn`, so the order of evaluation is immaterial):
+                //   `{ let mut src = V; let mut out = Vec::new(); loop { match vec_take_first_(&mut src) { Some(item) => { let P = item; let y = B; out.push(y); } None => break } } out }`
+                if let Expr::MethodCall(mp) = &*c.receiver { if let (Expr::Closure(cl), Expr::MethodCall(m)) = (&mp.args[0], &*mp.receiver) {
+                    let idx = rw.loop_idx.get();
+                    rw.loop_idx.set(idx + 1);
+                    let a = e.span().byte_range().start;
+                    let b = cl.body.span().byte_range().start;
+                    rw.loop_headers.borrow_mut().push(rw.src[a..b].split_whitespace().collect::<Vec<_>>().join(" "));
+                    let v = rw.render_expr(&m.receiver);
+                    let body = rw.render_expr(&cl.body);
+                    let pat = rw.src[cl.inputs[0].span().byte_range()].trim().to_string();
+                    let inv = rw.section(&format!("loop {idx}")).map(|t| mark(t)).unwrap_or_default();
+                    let top = rw.section(&format!("loop {idx} top-raw")).map(|t| format!("{}\n", mark(t))).unwrap_or_default();
+                    let end = rw.section(&format!("loop {idx} end")).map(|t| format!("proof {{ //@p\n{}\n}} //@p\n", mark(t))).unwrap_or_default();
+                    let after = rw.section(&format!("loop {idx} after")).map(|t| format!("proof {{ //@p\n{}\n}} //@p\n", mark(t))).unwrap_or_default();
+                    let newv = match &rw.vec_elem { Some(t) => format!("Vec::<{t}>::new()"), None => "Vec::new()".to_string() };
+                    let begin = rw.section(&format!("loop {idx} begin")).map(|t| format!("proof {{ //@p\n{}\n}} //@p\n", mark(t))).unwrap_or_default();
+                    let text = format!("({{ let mut __src{idx} = {v}; let mut __out{idx} = {newv};\nloop\n{inv}\n{{ {top}match vec_take_first_(&mut __src{idx}) {{ Some(__item{idx}) => {{ let {pat} = __item{idx};\n{begin}let __y{idx} = {body}; __out{idx}.push(__y{idx});\n{end} }} None => {{ break; }} }} }}\n{after} __out{idx} }})");
+                    rw.count("R35");
                     let sp = e.span().byte_range();
                     self.edits.push((sp.start, sp.end, text));
                 } }
@@ -1298,6 +1343,8 @@ impl<'a, 'b, 'ast> Visit<'ast> for Collector<'a, 'b> {
                 let idx = rw.loop_idx.get();
                 rw.loop_idx.set(idx + 1);
                 let it = rw.render_expr(&w.expr);
+                // `for P in v` over a Vec held by value, with `iter_model=v!`: the overlay's owning iterator model (as R22's owned form)
+                let it = match &*w.expr { Expr::Path(p) if p.path.get_ident().map(|i| rw.iter_model.contains(&format!("{i}!"))).unwrap_or(false) => format!("viter_own_({it})"), _ => it };
                 let (pat, binds) = deref_pats(&rw.src[w.pat.span().byte_range()]);
                 let inv = rw.section(&format!("loop {idx}")).map(|t| mark(t)).unwrap_or_default();
                 let mut c = Collector { rw, edits: vec![] };
